@@ -238,6 +238,26 @@ ADDED4 = {
     "C20": " Round 8: the deserializer of an exact type returns what the constructor gives (no context-rounded arithmetic); a custom type_check decides membership in the class it is given (C20.c.iv, F57).",
 }
 
+ADDED5 = {
+    "C01": " Rounds 9-12: the JSON escape written after json.dumps has four zero-padded hex digits; sub-files of a multi-file save are serialised with the caller's skip_none; class paths are compared by equality in the skip_default reduction.",
+    "C02": " Rounds 9-12: no positional Union member access under an order-insensitive Optional test (F63); the TypedDict metaclass table starts from the imported metaclass.",
+    "C03": " Rounds 9-12: set_loader overwrites a mode's loader and exceptions together; help text is expanded with safe_substitute.",
+    "C04": " Rounds 9-12: every parse entry folds defaults / environment in when either is on; an unreadable default config file is skipped on its own (F64); sorted() only directly around one glob call.",
+    "C05": " Rounds 9-12: nargs None, '?' and 0 are the single-value cases of the shared checker.",
+    "C06": " Rounds 9-12: the spec-key test of is_subclass_spec reads the keys of the value itself; a set-difference on required_args is a reported removal.",
+    "C07": " Rounds 9-12: the attrs arm of dataclass_to_dict recurses like its siblings.",
+    "C08": " Rounds 9-12: the copy of a declared default lies on every path between its read and its store in get_defaults.",
+    "C11": " Rounds 9-12: a dict is expanded into a Namespace only when all its keys are strings.",
+    "C12": " Rounds 9-12: a container hint needs evaluation as soon as one member does.",
+    "C13": " Rounds 9-12: the shift for an explicit instance drops call position 0 only, a self receiver is a bound call, the flag is re-initialised per call node; stored lambdas of module tables do not read the loop variable; the folded constant is taken by truth value; keyword-only names and defaults are joined on the same side.",
+    "C14": " Rounds 9-12: abstractness is asked of the declared type where the implicit class of a short form is chosen.",
+    "C15": " Rounds 9-12: a link is skipped for an unresolved source only when the source key is absent (not when its value is None).",
+    "C16": " Rounds 9-12: a refused link leaves the parser as it was - no refusal is reachable from a lasting change of the parser's tables (F65); the separator-terminated prefix rule also covers discard_init_args_on_class_path_change.",
+    "C17": " Rounds 9-12: a --cfg item is folded in with env=False and defaults=False.",
+    "C19": " Rounds 9-12: the failure class of the os.fsencode probe is the one converted to PathError.",
+    "C20": " Rounds 9-12: the constructor-exception model covers the local Decimal deserializer.",
+}
+
 
 def main():
     checks = []
@@ -253,6 +273,8 @@ def main():
             text = text + ADDED3[pid]
         if pid in ADDED4:
             text = text + ADDED4[pid]
+        if pid in ADDED5:
+            text = text + ADDED5[pid]
         checks.append(
             {
                 "property_id": pid,
